@@ -42,12 +42,14 @@ QSpell(qn, qt) ==
 \* expectation for one query against version v: the admissible answers
 \* (ideal), and -- where the transcription with the open deviations predicts
 \* something else -- each such answer with the deviations that explain it
-Chk(v, qn, qt) ==
-  LET s == QSpell(qn, qt)
-      e == AnswerAbs(committed[v], ApexLabels, s.sq, qt)
-      c == QueryAbs(store, v, ApexSp, s.sq, qt, Dev)
-  IN [v |-> v, qn |-> qn, qt |-> qt, exp |-> e, sq |-> s.sq, rt |-> s.rt, ob |-> s.ob,
-      dev |-> {[ans |-> a, blame |-> IF a = OutOfZone THEN {} ELSE BlameOf(v, qn, qt, a)] : a \in c \ e}]
+\* (TLC passes operator arguments and LET definitions unevaluated and evaluates them
+\* again at every use; `x \in {expr}` binds the value)
+ChkS(v, qn, qt, s) ==
+  LET c == QueryAbs(store, v, ApexSp, s.sq, qt, Dev)
+  IN CHOOSE r \in {[v |-> v, qn |-> qn, qt |-> qt, exp |-> e, sq |-> s.sq, rt |-> s.rt, ob |-> s.ob,
+                    dev |-> {[ans |-> a, blame |-> IF a = OutOfZone THEN {} ELSE BlameOf(v, qn, qt, a)] : a \in c \ e}] :
+                     e \in {AnswerAbs(committed[v], ApexLabels, s.sq, qt)}} : TRUE
+Chk(v, qn, qt) == CHOOSE r \in {ChkS(v, qn, qt, s) : s \in {QSpell(qn, qt)}} : TRUE
 \* names outside the zone: query() says so; a server that looks the name up in its
 \* ZoneTree finds no zone and answers REFUSED
 ChkOut(v, full, k) ==
